@@ -21,6 +21,7 @@ type end struct {
 	rw     io.ReadWriter
 	setRDL func(time.Time) error
 	closeW func() error // half close of this side's write direction
+	rawIn  func() int   // bare Noise / PSK connection: raw bytes this side has taken off the wire since the data phase began
 }
 
 // oplog keeps the first and the last operations of a task (the ones next to a violation are the last).
@@ -86,7 +87,6 @@ type chanState struct {
 	afterEOFGood bool // ... and they were the correct continuation
 	rStarted     bool
 	rDone        atomic.Bool
-	desync       bool // observation: this reader lost its place after a read deadline (pnet), not judged further
 	prevEdge1    bool // previous read was a 1-byte read that consumed the last byte of a (notional) frame
 
 	wviol, rviol []common.Violation // writer / reader task each own one (they may run at the same instant)
@@ -150,6 +150,26 @@ func (c *chanState) frameRem(off int) int {
 		}
 	}
 	return 0
+}
+
+// midFrame: raw (ciphertext) offset in is inside a Noise frame (2-byte length + ciphertext + 16-byte tag per notional
+// frame) or inside the 24-byte nonce that precedes a PSK stream.
+func (c *chanState) midFrame(in int) bool {
+	if c.w.p.layer == layPnet {
+		return in > 0 && in < 24
+	}
+	prev, start := 0, 0 // plaintext end of the previous frame, raw offset at which the current frame starts
+	for _, e := range c.p.frames {
+		if in == start {
+			return false
+		}
+		end := start + 2 + (e - prev) + 16
+		if in < end {
+			return true
+		}
+		prev, start = e, end
+	}
+	return false // on or beyond the end of everything planned
 }
 
 func (c *chanState) atFrameStart(off int) bool {
@@ -311,9 +331,6 @@ func (c *chanState) reader(e *end) {
 		if n > 0 {
 			if !c.checkData(buf[:n], startOff, size) {
 				c.rEnd = "violation"
-				if c.desync {
-					c.rEnd = "desync-after-deadline"
-				}
 				return
 			}
 			c.off += n
@@ -350,6 +367,15 @@ func (c *chanState) reader(e *end) {
 			c.hadTimeout = true
 			c.timeouts++
 			w.probe("read-timeout")
+			if e.rawIn != nil && c.midFrame(e.rawIn()) {
+				// OBSERVATION, not an oracle: see deadlineObservation in sim_test.go. The connection has lost its
+				// place in the stream; what a further Read returns depends on ciphertext bytes (crypto/rand), so
+				// the reader stops here, which also keeps the run a pure function of the tape.
+				w.probe(deadlineObservation + lay)
+				c.rlog.addf("OBSERVATION: the read deadline expired after %d raw bytes, in the middle of a frame / of the nonce: the connection is desynchronised, reader stops", e.rawIn())
+				c.rEnd = "deadline-mid-frame"
+				return
+			}
 			if c.timeouts > p.retries {
 				if w.p.stratum == stStall {
 					c.rEnd = "gave-up"
@@ -389,14 +415,6 @@ func (c *chanState) checkData(got []byte, off, size int) bool {
 		k := 0
 		for got[k] == exp[k] {
 			k++
-		}
-		if c.hadTimeout && w.p.layer == layPnet {
-			// observation, not an oracle: see desyncProbe in sim_test.go (the PSK stream cipher is not authenticated,
-			// so a nonce taken from the wrong place shows up as garbage; on Noise the AEAD turns it into an error)
-			w.probe(desyncProbe + lay + "/wrong-bytes")
-			c.rlog.addf("OBSERVATION after %d read timeouts: wrong byte at stream offset %d (got %#02x want %#02x)", c.timeouts, off+k, got[k], exp[k])
-			c.desync = true
-			return false
 		}
 		c.violate("C02/wrong-bytes/"+lay+c.ctx(),
 			"Read #%d (buffer %d) returned %d bytes for offsets %d..%d; first wrong byte at stream offset %d (call-relative %d): got %#02x want %#02x; the bytes from there %s",
